@@ -23,7 +23,7 @@ def pub(case_or_rename, i):
 CLOSED = [False]
 
 
-def build(style, n, ret, seen, rename=False, dflt=False, aux=False, ostr=False):
+def build(style, n, ret, seen, rename=False, dflt=False, aux=False, ostr=False, narrow=False):
     """-> (application, method name).  seen: list collecting the args of each invocation"""
     from spyne import Application, Service, srpc, Integer, Fault, ComplexModel, Iterable, Ignored
     from spyne.protocol.xml import XmlDocument
@@ -119,11 +119,15 @@ def build(style, n, ret, seen, rename=False, dflt=False, aux=False, ostr=False):
 
         def auxbody(*args):
             # runs on the side; what it returns (or raises) is nobody's result
-            AUXRAN.append(1)
+            AUXRAN.append([-1 if a is None else a for a in args])
             return {'one': 999, 'two': (999, 998), 'fault': 999}.get(ret)
         ns2 = {'body': auxbody}
-        exec(src, ns2)
-        services.append(type('SAux', (Service,), {'__aux__': SyncAuxProc(), 'f': srpc(*argt, **kw)(ns2['f'])}))
+        if narrow:
+            exec('def f(a1):\n    return body(a1)\n', ns2)
+            services.append(type('SAux', (Service,), {'__aux__': SyncAuxProc(), 'f': srpc(argt[0], **kw)(ns2['f'])}))
+        else:
+            exec(src, ns2)
+            services.append(type('SAux', (Service,), {'__aux__': SyncAuxProc(), 'f': srpc(*argt, **kw)(ns2['f'])}))
     app = Application(services, 'tns', in_protocol=XmlDocument(), out_protocol=XmlDocument())
 
     def closed(ctx):
@@ -203,6 +207,7 @@ def direct(app, case, seen):
         elif m == 'both': pos.append(alt); kw[names[i]] = v
         elif m == 'kwnil': pos.append(v); kw[names[i]] = None
     del seen[:]
+    del AUXRAN[:]
     CLOSED[0] = False
     try:
         r = ns.service.f(*pos, **kw)
@@ -229,6 +234,7 @@ def wire_json(app, case, seen):
     vals = packed(case)
     body = json.dumps({'f': {pub(case, i): v for i, v in enumerate(vals) if v is not None}}).encode()
     del seen[:]
+    del AUXRAN[:]
     CLOSED[0] = False
     try:
         status, out = call_wsgi(w, body, 'application/json')
@@ -269,6 +275,7 @@ def wire_xml(app, case, seen):
                     '<tns:%s>%d</tns:%s>' % (pub(case, i), v, pub(case, i)) for i, v in enumerate(vals) if v is not None)
     body = ('<tns:f xmlns:tns="tns">%s</tns:f>' % inner).encode()
     del seen[:]
+    del AUXRAN[:]
     CLOSED[0] = False
     try:
         status, out = call_wsgi(w, body, 'text/xml')
@@ -296,6 +303,7 @@ def wire_client(app, case, seen, prot):
     cl = LoopbackClient(WsgiApplication(app2), app2)
     vals = packed(case)
     del seen[:]
+    del AUXRAN[:]
     CLOSED[0] = False
     try:
         res = norm(cl.service.f(*vals))
@@ -376,26 +384,27 @@ def run(ctx):
         seen = []
         n = len(c['modes'])
         try:
-            app = build(c['style'], n, c['ret'], seen, c['rename'], c['dflt'], c['aux'], c['ostr'])
+            app = build(c['style'], n, c['ret'], seen, c['rename'], c['dflt'], c['aux'], c['ostr'], c.get('narrow', False))
         except Exception as e:
             ctx.violation('cannot-build|style=%s|n=%d|ret=%s|%s' % (c['style'], n, c['ret'], type(e).__name__),
                           'application for %s cannot be built: %s' % (c, e), {'case': c})
             continue
         dres, dargs = direct(app, c, seen)
-        wires = [('xml',) + wire_xml(app, c, seen)]
+        daux = list(AUXRAN)
+        wires = [('xml',) + wire_xml(app, c, seen) + (list(AUXRAN),)]
         if c['style'] not in ('bare', 'bare_rec', 'bare_inh'):          # JsonDocument cannot take a bare complex request (documented limitation)
-            wires.append(('json',) + wire_json(app, c, seen))
+            wires.append(('json',) + wire_json(app, c, seen) + (list(AUXRAN),))
         if c['style'] in ('wrapped',) and c['ret'] not in ('gen',) and not c['aux']:      # (the Spyne client cannot call a method that has an auxiliary twin)
             for name, prot in (('soap11-client', Soap11), ('xml-client', XmlDocument)):
-                wires.append((name,) + wire_client(app, c, seen, prot))
+                wires.append((name,) + wire_client(app, c, seen, prot) + (list(AUXRAN),))
 
         def fix(args):
             # bare: the function sees the two fields of the one complex argument
             return [[-1 if a is None else a for a in call] for call in args]
-        for name, wres, wargs in wires:
+        for name, wres, wargs, waux in wires:
             if name == 'xml-client' and c['ret'] in ('fault', 'exc'):
                 continue      # the XmlDocument client does not decode faults (C09)
-            obs = {'dres': dres, 'wres': wres, 'dcalls': len(dargs), 'wcalls': len(wargs),
+            obs = {'dres': dres, 'wres': wres, 'dcalls': len(dargs), 'wcalls': len(wargs), 'daux': daux, 'waux': waux,
                    'dargs': fix(dargs)[0] if dargs else ['?'], 'wargs': fix(wargs)[0] if wargs else ['?']}
             recs.append({'case': c, 'obs': obs, 'wire': name})
     tf = os.path.join(ctx.work, 'null_traces.ndjson')
@@ -420,7 +429,7 @@ def run(ctx):
                     continue
                 c = rec['case']
                 ctx.violation('%s|wire=%s|style=%s|ret=%s|modes=%s%s%s' % ('+'.join(cl), rec['wire'], c['style'], c['ret'], ','.join(c['modes']) or '-', '|renamed' if c['rename'] else '',
-                                                                          ('|defaults' if c['dflt'] else '') + ('|aux' if c['aux'] else '') + ('|ostr' if c['ostr'] else '')),
+                                                                          ('|defaults' if c['dflt'] else '') + ('|aux' if c['aux'] else '') + ('|narrow' if c.get('narrow') else '') + ('|ostr' if c['ostr'] else '')),
                               'clauses %s fail: direct %s args %s; wire(%s) %s args %s' % (
                                   cl, rec['obs']['dres'], rec['obs']['dargs'], rec['wire'], rec['obs']['wres'], rec['obs']['wargs']),
                               {'case': c, 'observation': rec['obs'], 'wire': rec['wire']})
